@@ -31,7 +31,12 @@ CASES = [
     ("apply-deltas-skips-unchanged-edge", "mutant", G, "                g.edges[eid] = Edge(\n                    id=eid,\n                    src=d[\"src\"],\n                    dst=d[\"dst\"],\n                    weight=float(d[\"weight\"]),\n                    rel=d.get(\"rel\", \"associates\"),\n                )\n                edits += 1\n",
      "                _e = Edge(\n                    id=eid,\n                    src=d[\"src\"],\n                    dst=d[\"dst\"],\n                    weight=float(d[\"weight\"]),\n                    rel=d.get(\"rel\", \"associates\"),\n                )\n                if g.edges.get(eid) == _e:\n                    continue\n                g.edges[eid] = _e\n                edits += 1\n", "C05.VER"),
     ("apply-deltas-counts-only-new-nodes", "mutant", G, "                g.nodes[nid] = g.nodes.get(nid) or Node(id=nid, label=d.get(\"label\", nid))\n                edits += 1\n", "                if nid not in g.nodes:\n                    g.nodes[nid] = Node(id=nid, label=d.get(\"label\", nid))\n                    edits += 1\n", "C05.VER"),
+    ("t1-fold-helper-adopts-cached-list", "mutant", T, [("def _compute_decay(distance: int, cfg_t1: dict) -> float:\n", "def _merge_deltas(acc, part):\n    if not part:\n        return acc\n    if not acc:\n        return part\n    acc.extend(part)\n    return acc\n\n\ndef _compute_decay(distance: int, cfg_t1: dict) -> float:\n"),
+      ("            if deltas_for_gid:\n                all_deltas.extend(deltas_for_gid)\n", "            all_deltas = _merge_deltas(all_deltas, deltas_for_gid)\n")], None, "C05.ALIAS"),
+    ("index-replace-without-version-bump", "mutant", I, "    def add(self, ep: Dict[str, Any]) -> None:\n        self._eps.append(ep)\n        self._ver += 1\n", "    def add(self, ep: Dict[str, Any]) -> None:\n        for _i, _e in enumerate(self._eps):\n            if _e.get(\"id\") == ep.get(\"id\"):\n                self._eps[_i] = ep\n                return\n        self._eps.append(ep)\n        self._ver += 1\n", "C05.VER"),
     # twins
+    ("t1-fold-helper-copies", "twin", T, [("def _compute_decay(distance: int, cfg_t1: dict) -> float:\n", "def _merge_deltas(acc, part):\n    return list(acc) + list(part or [])\n\n\ndef _compute_decay(distance: int, cfg_t1: dict) -> float:\n"),
+      ("            if deltas_for_gid:\n                all_deltas.extend(deltas_for_gid)\n", "            all_deltas = _merge_deltas(all_deltas, deltas_for_gid)\n")], None, None),
     ("apply-deltas-extra-noop-loop", "twin", G, [("        edits = 0\n        for d in deltas:\n", "        edits = 0\n        for d in deltas:\n            pass\n        for d in deltas:\n")], None, None),
     ("t2-key-helper-local", "twin", C, "        \"owner\": _owner_for_query(ctx, cfg_t2),\n", "        \"owner\": _owner_for_query(ctx, cfg_t2),\n        \"owner_again\": _owner_for_query(ctx, cfg_t2),\n", None),
     ("t1-copy-before-extend", "twin", T, "            if deltas_for_gid:\n                all_deltas.extend(deltas_for_gid)\n            total_pops += m[\"pops\"]\n", "            if deltas_for_gid:\n                all_deltas.extend(list(deltas_for_gid))\n            total_pops += m[\"pops\"]\n", None),
